@@ -1166,7 +1166,23 @@ class Exec:
             fields = ()
             if rest.startswith("{"):
                 inner = rest[1:-1].strip()
-                fields = tuple(self.operand(fr, p.split(": ", 1)[1]) for p in split_top(inner) if p)
+                ops = [p.split(": ", 1)[1] for p in split_top(inner) if p]
+                # rustc's MIR printer zips the names of the captured *variables* with the operand list: when a variable is captured field by field (precise captures,
+                # `filter_options.a`, `filter_options.b`, ..) there are fewer names than operands and the printed list is cut short.  The closure body's debug info tells the real
+                # number of upvars; the missing operands are the temporaries numbered after the printed ones (they are assigned right before the aggregate in the same block).
+                cf = self.prog.closures.get(cty)
+                want = None
+                if cf is not None:
+                    idx = [int(m_.group(1)) for pl_ in cf.debug.values() for m_ in [re.match(r"^\(?\*?\(?\(\*_1\)\.(\d+): ", pl_)] if m_]
+                    want = max(idx) + 1 if idx else None
+                if want is not None and len(ops) < want:
+                    nums = [re.fullmatch(r"(move|copy) _(\d+)", o) for o in ops]
+                    # (when the pattern is not recognised the printed operands are kept: a later access to a missing capture ends the path as unsupported, never silently)
+                    if all(nums) and [int(m_.group(2)) for m_ in nums] == list(range(int(nums[0].group(2)), int(nums[0].group(2)) + len(ops))):
+                        first = int(nums[0].group(2))
+                        if all(f"_{first + i}" in fr.locals for i in range(want)):
+                            ops = [f"move _{first + i}" for i in range(want)]
+                fields = tuple(self.operand(fr, o) for o in ops)
             return AggV(fields, cty)
         # struct with named fields: `Path { a: x, b: y }`
         m = re.match(r"^(.*?) \{ (.*) \}$", r)
